@@ -18,7 +18,14 @@ Lemma lookup_spec keys q k :
 Proof.
   intros Hk Hq.
   assert (E : lookup keys q = filter (fun k => on_boundary k q) (trie_prefixes keys q)).
-  { unfold lookup. apply filter_ext_in. intros a Ha. unfold trie_prefixes in Ha. apply filter_In in Ha as [Ha _].
+  { unfold lookup.
+    assert (Ed : dir_key_of keys q = []).
+    { unfold dir_key_of. destruct q as [|c q']; [reflexivity|]. destruct (ends_slash (c :: q')); [reflexivity|].
+      destruct (existsb (str_eqb ((c :: q') ++ [slash])) keys) eqn:Ee; [|reflexivity]. exfalso.
+      apply existsb_exists in Ee as (k0 & Hin & Heq). apply str_eqb_eq in Heq. subst k0.
+      pose proof (wf_no_trailing_slash _ (Hk _ Hin)) as Hn. unfold ends_slash in Hn. rewrite rev_unit in Hn.
+      rewrite N.eqb_refl in Hn. discriminate. }
+    rewrite Ed, app_nil_r. apply filter_ext_in. intros a Ha. unfold trie_prefixes in Ha. apply filter_In in Ha as [Ha _].
     apply on_boundary_or_slash_wf. apply Hk. exact Ha. }
   rewrite E. unfold trie_prefixes. rewrite !filter_In. split.
   - intros [[Hin Hp] Hb]. split; auto. rewrite <- path_lemma by auto.
